@@ -1,1 +1,7 @@
-//! simulated swarm world
+//! Simulated swarm world: real `libp2p_swarm::Swarm`s over a simulated transport / muxer, with
+//! every task scheduled by the harness (`vcore::simexec::Exec` is the Swarm's executor).
+
+pub mod derived;
+pub mod net;
+pub mod probe;
+pub mod world;
